@@ -141,6 +141,26 @@ func evalVolume(c Case) verdict {
 		return verdict{class: "nonce-unusable", judged: false}
 	}
 	der := btcSig.Bytes()
+	// the serialised form of the library's own signature: canonical DER of (r, s), low S,
+	// through both serialisers
+	if !refsig.IsLowS(&btcSig.S.Int) {
+		return verdict{key: "volume/ecdsa-own-signature-high-s", judged: true, class: "high-s",
+			what: fmt.Sprintf("Signature.Sign(sec=%x, msg=%x, nonce=%x) gives S=%s above (n-1)/2", sk, msg, aux, btcSig.S.Text(16))}
+	}
+	if why := canonicalDER(append(append([]byte{}, der...), 1), &btcSig.R.Int, &btcSig.S.Int, 1); why != "" {
+		return verdict{key: "serialise/secp256k1.Signature.Bytes-not-canonical-der", judged: true, class: "own-signature-not-canonical",
+			what: fmt.Sprintf("own signature (sec=%x, msg=%x, nonce=%x) serialised by secp256k1.Signature.Bytes(): %s", sk, msg, aux, why)}
+	}
+	{
+		var bs btc.Signature
+		bs.R.Set(&btcSig.R.Int)
+		bs.S.Set(&btcSig.S.Int)
+		bs.HashType = 1
+		if why := canonicalDER(bs.Bytes(), &btcSig.R.Int, &btcSig.S.Int, 1); why != "" {
+			return verdict{key: "serialise/btc.Signature.Bytes-not-canonical-der", judged: true, class: "own-signature-not-canonical",
+				what: fmt.Sprintf("own signature (sec=%x, msg=%x, nonce=%x) serialised by btc.Signature.Bytes(): %s", sk, msg, aux, why)}
+		}
+	}
 	hi := refsig.SerializeDER(&btcSig.R.Int, new(big.Int).Sub(refsecp.N, &btcSig.S.Int))
 	wrong := sha256.Sum256(msg)
 	for _, comp := range []bool{true, false} {
